@@ -147,7 +147,8 @@ CHECKS['C11'] = _gatt('Same world as C10: between an indication and its confirma
 _STACK = {'harness': 'stack_sim', 'binary': 'stack_sim'}
 _STACK_NOTE = ('trusted: the simulated radio (harness/sim_radio.hpp, the scheduled_radio contract as documented) and the central / scanner / initiator model written from the Core specification '
                '(harness/stack_world.hpp: CSA#1, anchors, transmit windows, control procedures); real code: link_layer<>, advertising, peripheral_latency, channel_map, ll_data_pdu_buffer, '
-               'll_l2cap_sdu_buffer, l2cap, signaling channel, GATT server; 4 link layer configurations (buffers 61..200 bytes, latency options, variable advertising map, white list, no-auto-start); '
+               'll_l2cap_sdu_buffer, l2cap, signaling channel, GATT server; 12 link layer configurations: 5 option sets (buffers 61..200 bytes, latency options, variable advertising map, white list, no-auto-start, several advertising types) '
+               'each on the simulated radio and on the real nRF52 radio front end (nrf52.hpp over the Hardware stub harness/nrf_bridge.hpp: one PDU pair per event, CRC error = no reception), and 2 with link encryption; '
                'clock drift within +-500 ppm on both sides, radio set-up margin and disarm refusals as knobs; 2 us (+2 ppm) tolerance on window checks')
 _STACK_ASSUME = ['the central obeys the Core specification unless an op says otherwise (raw/hostile PDUs excuse the checks that depend on them)', 'one connection at a time (Bluetoe peripheral)',
                  'radio of the real hardware is replaced by the contract; encryption is off (C28 is not decided here)']
